@@ -1,4 +1,5 @@
 import importlib
+import importlib.util
 import pathlib
 import sys
 import warnings
@@ -39,7 +40,11 @@ def load_model_from_file(path, register=False):
         # insert the plugin directory to sys.path so we can import it
         sys.path.insert(-1, str(path.parent))
         sys.dont_write_bytecode = True
-        module = importlib.import_module(path.stem)
+        # Load exactly this file (`importlib.import_module(path.stem)`
+        # would return any cached or installed module of the same name).
+        spec = importlib.util.spec_from_file_location(path.stem, path)
+        module = importlib.util.module_from_spec(spec)
+        spec.loader.exec_module(module)
     except Exception as exc:
         raise ModelImportError(f"Could not import '{path}'!") from exc
     finally:
